@@ -82,7 +82,14 @@ func FindMajority(quorum, threshold uint, set ...uint) int {
 		return set[i] > set[j]
 	})
 
-	if quorum-sum+set[0] < th {
+	// NOTE if voted more than quorum, quorum-sum wraps around; no more votes
+	// remain.
+	var remain uint
+	if quorum > sum {
+		remain = quorum - sum
+	}
+
+	if remain+set[0] < th {
 		return -2
 	}
 
